@@ -201,6 +201,16 @@ func c07Jobs(tier string) []Job {
 			jobs = append(jobs, Job{Scenario: sc, Bound: bound})
 		}
 	}
+	// the entry is ALREADY expired (and unswept) when a writer refreshes it: a lookup that looks
+	// at the entry more than once must not combine the old value with the new expiration
+	expired := []Op{sttl(1, 1000), {K: "wait"}, {K: "advance", N: 2000}}
+	refreshers := [][]Op{{sttl(1, 5000)}, {{K: "set", Key: 1, Cost: 1}}, {{K: "del", Key: 1}, sttl(1, 5000)}}
+	for i, w := range refreshers {
+		for j, rd := range readers {
+			sc := &Scenario{Name: fmt.Sprintf("dfs/expired-refreshed/w%d-r%d", i, j), Cfg: cfg, Setup: cp(expired), Threads: [][]Op{cp(w), cp(rd)}, Epilogue: []Op{{K: "wait"}, {K: "get", Key: 1}}}
+			jobs = append(jobs, Job{Scenario: sc, Bound: bound})
+		}
+	}
 	return jobs
 }
 
@@ -344,6 +354,13 @@ func c14Jobs(tier string) []Job {
 	live := []Op{{K: "wait"}, {K: "advance", N: 3000}, {K: "tick"}, {K: "wait"}, {K: "advance", N: 3000}, {K: "tick"}, {K: "wait"}, {K: "tick"}, {K: "wait"}, {K: "get", Key: 1}}
 	for i, pair := range [][2][]Op{{{set(1)}, {sttl(1, 1000)}}, {{sttl(1, 1500)}, {sttl(1, 1000)}}, {{set(1), sttl(1, 1200)}, {sttl(1, 1000)}}} {
 		sc := &Scenario{Name: fmt.Sprintf("dfs/two-rewriters/%d", i), Cfg: cfg, Setup: []Op{sttl(1, 1000), {K: "wait"}}, Threads: [][]Op{cp(pair[0]), cp(pair[1])}, Epilogue: cp(live)}
+		jobs = append(jobs, Job{Scenario: sc, Bound: bound})
+	}
+	// a client stalled inside SetWithTTL (after it fixed the expiration) while the clock moves on
+	// and a sweep passes the bucket the overwrite will be filed under
+	for i, st := range [][]Op{{set(1), {K: "wait"}}, {sttl(1, 1000), {K: "wait"}}, {sttl(1, 20000), {K: "wait"}}} {
+		sc := &Scenario{Name: fmt.Sprintf("dfs/overwrite-stalled-across-a-sweep/%d", i), Cfg: cfg, Setup: cp(st),
+			Threads: [][]Op{{sttl(1, 1000)}, {{K: "advance", N: 3000}, {K: "tick"}, {K: "wait"}}}, Epilogue: cp(live)}
 		jobs = append(jobs, Job{Scenario: sc, Bound: bound})
 	}
 	for name, cl := range clients {
